@@ -25,34 +25,71 @@ def _f(v):
     return float(np.reshape(v, (-1,))[0])
 
 
-def _build_mean(ms, kernel_obj=None):
-    ms = copy.deepcopy(ms)
+def construct_mean(ms, kernel_obj=None):
     if ms["m"] == "zero":
         m = ZeroMeanFunction()
-        m.collect_params().initialize()
-        return m, ms
-    if ms["m"] == "scalar":
+    elif ms["m"] == "scalar":
         m = ScalarMeanFunction()
-        m.collect_params().initialize()
+    elif ms["m"] == "expdecay":
+        return ExponentialDecayResourcesMeanFunction(kernel=kernel_obj)
+    else:
+        raise ValueError(ms)
+    m.collect_params().initialize()
+    return m
+
+
+def apply_mean(m, ms):
+    """Set the parameters of mean object m from spec ms (public set_params); returns the spec with the values read
+    back through get_params()."""
+    ms = copy.deepcopy(ms)
+    if ms["m"] == "scalar":
         m.set_params({"mean_value": ms["value"]})
         ms["value"] = _f(m.get_params()["mean_value"])
-        return m, ms
-    if ms["m"] == "expdecay":
-        m = ExponentialDecayResourcesMeanFunction(kernel=kernel_obj)
-        return m, ms
-    raise ValueError(ms)
+    return ms
 
 
-def _build_kernel(ks):
-    """-> (KernelFunction, ks_actual); parameters set through the public set_params()/get_params()."""
+def _build_mean(ms, kernel_obj=None):
+    m = construct_mean(ms, kernel_obj)
+    return m, apply_mean(m, ms)
+
+
+def construct_kernel(ks):
+    """Real KernelFunction object tree for spec ks, parameters at their initial values."""
+    t = ks["k"]
+    if t == "matern52":
+        d = int(ks["d"])
+        k = Matern52(dimension=d, ARD=len(ks["inv_bw"]) > 1, has_covariance_scale=ks.get("has_cov_scale", True))
+        k.collect_params().initialize()
+        return k
+    if t == "warped":
+        base = construct_kernel(ks["base"])
+        warps = []
+        for w in ks["warps"]:
+            wp = Warping(dimension=base.dimension, coordinate_range=tuple(w["range"]))
+            wp.collect_params().initialize()
+            warps.append(wp)
+        return WarpedKernel(kernel=base, warpings=warps)
+    if t == "product":
+        return ProductKernelFunction(construct_kernel(ks["k1"]), construct_kernel(ks["k2"]))
+    if t == "expdecay":
+        kx = construct_kernel(ks["kx"])
+        mx = construct_mean(ks["mx"])
+        k = ExponentialDecayResourcesKernelFunction(
+            kx, mx, delta_fixed_value=(ks["delta"] if ks.get("delta_fixed", False) else None))
+        k.collect_params().initialize()
+        return k
+    raise ValueError(t)
+
+
+def apply_kernel(k, ks):
+    """Set all parameters of kernel object k from spec ks through the public set_params(); returns the spec with the
+    values as read back through get_params()."""
     ks = copy.deepcopy(ks)
     t = ks["k"]
     if t == "matern52":
         d = int(ks["d"])
         ard = len(ks["inv_bw"]) > 1
         has_cs = ks.get("has_cov_scale", True)
-        k = Matern52(dimension=d, ARD=ard, has_covariance_scale=has_cs)
-        k.collect_params().initialize()
         p = {}
         if ard:
             assert len(ks["inv_bw"]) == d
@@ -66,70 +103,73 @@ def _build_kernel(ks):
             assert ks["cov_scale"] == 1.0
         k.set_params(p)
         q = k.get_params()
-        if ard and d > 1:
-            ks["inv_bw"] = [_f(q[f"inv_bw{i}"]) for i in range(d)]
-        else:
-            ks["inv_bw"] = [_f(q["inv_bw"])]
+        ks["inv_bw"] = [_f(q[f"inv_bw{i}"]) for i in range(d)] if ard else [_f(q["inv_bw"])]
         ks["cov_scale"] = _f(q["covariance_scale"]) if has_cs else 1.0
-        return k, ks
+        return ks
     if t == "warped":
-        base, ks["base"] = _build_kernel(ks["base"])
-        d = base.dimension
-        warps = []
-        for w in ks["warps"]:
+        ks["base"] = apply_kernel(k.kernel, ks["base"])
+        for wp, w in zip(k.warpings, ks["warps"]):
             lo, hi = w["range"]
-            wp = Warping(dimension=d, coordinate_range=(lo, hi))
-            wp.collect_params().initialize()
             size = hi - lo
-            p = {}
-            for kind in ("a", "b"):
-                for i in range(size):
-                    name = f"power_{kind}" if size == 1 else f"power_{kind}_{i}"
-                    p[name] = w[kind][i]
-            wp.set_params(p)
+            names = {kind: [f"power_{kind}" if size == 1 else f"power_{kind}_{i}" for i in range(size)]
+                     for kind in ("a", "b")}
+            wp.set_params({names[kind][i]: w[kind][i] for kind in ("a", "b") for i in range(size)})
             q = wp.get_params()
             for kind in ("a", "b"):
-                w[kind] = [_f(q[f"power_{kind}" if size == 1 else f"power_{kind}_{i}"]) for i in range(size)]
-            warps.append(wp)
-        k = WarpedKernel(kernel=base, warpings=warps)
-        return k, ks
+                w[kind] = [_f(q[nm]) for nm in names[kind]]
+        return ks
     if t == "product":
-        k1, ks["k1"] = _build_kernel(ks["k1"])
-        k2, ks["k2"] = _build_kernel(ks["k2"])
-        return ProductKernelFunction(k1, k2), ks
+        ks["k1"] = apply_kernel(k.kernel1, ks["k1"])
+        ks["k2"] = apply_kernel(k.kernel2, ks["k2"])
+        return ks
     if t == "expdecay":
-        kx, ks["kx"] = _build_kernel(ks["kx"])
-        mx, ks["mx"] = _build_mean(ks["mx"])
         fixed = ks.get("delta_fixed", False)
-        k = ExponentialDecayResourcesKernelFunction(
-            kx, mx, delta_fixed_value=(ks["delta"] if fixed else None))
-        k.collect_params().initialize()
-        p = k.get_params()
+        ks["kx"] = apply_kernel(k.kernel_x, ks["kx"])
+        ks["mx"] = apply_mean(k.mean_x, ks["mx"])
+        p = k.get_params()          # carries the kernelx_/meanx_ entries just set
         p.update({"alpha": ks["alpha"], "mean_lam": ks["mean_lam"], "gamma": ks["gamma"]})
         if not fixed:
             p["delta"] = ks["delta"]
-        k.set_params(p)
+        # set only the exp-decay parameters themselves (setting kernelx_ again could move them by an ulp)
+        k.encoding_alpha.set(k.alpha_internal, ks["alpha"])
+        k.encoding_mean_lam.set(k.mean_lam_internal, ks["mean_lam"])
+        k.encoding_gamma.set(k.gamma_internal, ks["gamma"])
+        if not fixed:
+            k.encoding_delta.set(k.delta_internal, ks["delta"])
         q = k.get_params()
         for name in ("alpha", "mean_lam", "gamma"):
             ks[name] = _f(q[name])
         if not fixed:
             ks["delta"] = _f(q["delta"])
-        return k, ks
+        return ks
     raise ValueError(t)
 
 
-def build(ks, ms):
+def construct(ks, ms_list):
+    """-> (kernel_arg, kernel_obj, [mean objects]) with initial parameter values."""
     if ks["k"] == "scaled":
-        base, base_actual = _build_kernel(ks["base"])
-        scale = np.array([float(ks["scale"])])
-        kernel_arg = (base, scale)
-        ks_actual = {"k": "scaled", "base": base_actual, "scale": float(scale[0])}
-        kobj = base
+        kobj = construct_kernel(ks["base"])
+        kernel_arg = (kobj, np.array([float(ks["scale"])]))
     else:
-        kobj, ks_actual = _build_kernel(ks)
+        kobj = construct_kernel(ks)
         kernel_arg = kobj
-    mean, ms_actual = _build_mean(ms, kobj)
-    return kernel_arg, mean, ks_actual, ms_actual
+    return kernel_arg, kobj, [construct_mean(ms, kobj) for ms in ms_list]
+
+
+def apply(kobj, means, ks, ms_list):
+    """Set parameters; -> (ks_actual, [ms_actual])."""
+    if ks["k"] == "scaled":
+        ks_actual = {"k": "scaled", "base": apply_kernel(kobj, ks["base"]), "scale": float(ks["scale"])}
+    else:
+        ks_actual = apply_kernel(kobj, ks)
+    return ks_actual, [apply_mean(m, ms) for m, ms in zip(means, ms_list)]
+
+
+def build(ks, ms):
+    """One kernel + one mean: -> (kernel_arg, mean object, ks_actual, ms_actual)."""
+    kernel_arg, kobj, means = construct(ks, [ms])
+    ks_actual, ms_actual = apply(kobj, means, ks, [ms])
+    return kernel_arg, means[0], ks_actual, ms_actual[0]
 
 
 # --------------------------------------------------------------------------- RNG stubs
